@@ -133,7 +133,11 @@ def run_shard(sh, spec):
         fa, fb = db.base_factor(a), db.base_factor(b)
         nt = fa != fb
         try:
-            for x in XS:
+            # five fixed magnitudes plus two seeded ones per pair (rounding-sensitive values differ from pair to pair:
+            # whether `x * f / f == x` holds depends on both x and the factor)
+            prng = rng_for(spec["seed"], "C11pair", i)
+            extra = [round(prng.uniform(0.01, 1000), prng.choice([1, 2, 3, 5])), float(f"{prng.uniform(1, 10):.5g}e{prng.randint(-6, 9)}")]
+            for x in list(XS) + extra:
                 A = f"{plit(x)} {sa}"
                 va = nmul(exact(x), fa)
                 run_case(sh, es, w, db, A, f"{plit(x)} {sb}", va, ("exact", nmul(exact(x), fb)), nt)
